@@ -103,9 +103,11 @@ async def _run(ops, talking, late_fail=False, close_stall=0):
                 transports[-1][0].feed_data(G.enc(0x35, 0x56, 0x45, 48, 5, sensor_full))
             transports[-1][0].feed_eof()
             await PI.settle(20)
-            if busy is not None:
+            if busy is not None and not (len(op) > 5 and op[5]):
                 busy.set_result(None)
                 await PI.settle(10)
+            elif busy is not None:
+                blockers.append(busy)       # the subscriber is still awaiting when close() is issued (and afterwards)
             if op[2]:
                 for _ in range(200):
                     if proto.connected.is_set():
@@ -167,7 +169,7 @@ class C12(Prop):
     prop_file = "Props/C12.v"
     rule = ("histories over: connect (0..2 failing opens), frames creating the ecoMAX device, mixers 0 and 4 and thermostat 0 (overlapping "
             "index), an ecoSTER device, undecodable frames; queued requests; pending tasks owned by the device / a mixer / a thermostat / "
-            "set_nowait; connection loss with a reconnect chain that succeeds or keeps failing; silence; close() issued at the end of every "
+            "set_nowait; connection loss (also while a consumer is still creating the device entry, held by a slow user subscriber that returns before or only after close()) with a reconnect chain that succeeds or keeps failing; silence; close() issued at the end of every "
             "prefix, with a silent or a talking controller, on transports that confirm closing at once, after 2 / 9 / 11 s, or never.  Observed: close() returns, its virtual duration, tasks still pending afterwards "
             "(asyncio.all_tasks), transports closed.  Non-trivial = something is queued, pending or disconnected when close() is issued; "
             "distinct by (history, talking).")
@@ -194,7 +196,7 @@ class C12(Prop):
                                              for _ in range(rng.randrange(1, 4))]])
                 elif r < 0.8:
                     back = rng.random() < 0.5
-                    ops.append(["loss", rng.randrange(0, 3), back, rng.choice([0, 1, 5, 19, 21, 45]), rng.random() < 0.4])
+                    ops.append(["loss", rng.randrange(0, 3), back, rng.choice([0, 1, 5, 19, 21, 45]), rng.random() < 0.4, rng.random() < 0.5])
                 else:
                     ops.append(["silence", rng.choice([0, 1, 5, 9, 11, 30])])
             # close() at every point of the history
